@@ -158,6 +158,104 @@ example :
         .selected 0 3 [("id".toList, "42".toList), ("rest".toList, "a/b".toList)] := by
   decide
 
+/-! ### non-vacuity (audit): every hypothesis at once, several candidate routes, both routers; the
+    predicate is not trivially true -/
+namespace C04Example
+
+/-- an oracle that evaluates `[0-9]+` faithfully (search / whole segment) -/
+def E1 : ReEnv :=
+  ⟨fun e s => if e = "[0-9]+".toList then s.any Char.isDigit else true,
+   fun e s => if e = "[0-9]+".toList then !s.isEmpty && s.all Char.isDigit else true⟩
+
+def rd (id : Nat) (m p : String) : RouteDecl :=
+  { id := id, method := m.toList, relPath := p.toList, consumes := [], produces := [], conds := [], noct := [] }
+
+/-- root `/orgs/{org}` (a root variable) with a regex variable + `{v}suffix` + custom verb, two plain
+    variables, a tail wildcard -/
+def cfgC : Config := { router := .curly, services :=
+  [ { id := 0, root := "/orgs/{org}".toList, routes :=
+        [ rd 1 "GET" "/users/{id:[0-9]+}/{file}.json:export",
+          rd 2 "GET" "/users/{id}/{name}",
+          rd 3 "GET" "/static/{rest:*}" ] } ] }
+/-- the same on the forms RouterJSR311 documents -/
+def cfgJ : Config := { router := .jsr, services :=
+  [ { id := 0, root := "/orgs/{org}".toList, routes :=
+        [ rd 1 "GET" "/users/{id:[0-9]+}/x",
+          rd 2 "GET" "/users/{id}/{name}",
+          rd 3 "GET" "/static/{rest:*}" ] } ] }
+
+def get (p : String) : Req := { method := "GET".toList, path := p.toList }
+def reqC : Req := get "/orgs/acme/users/42/report.json:export"
+def reqJ : Req := get "/orgs/acme/users/42/x"
+
+/-- the hypotheses of `C04_curly` hold; TWO routes admit the first URL (1 and 2) and route 1 runs with
+    root variable, regex variable and suffix variable bound; a trailing slash and a tail wildcard -/
+example :
+    cfgC.router = .curly ∧ cfgC.wfTemplates = true ∧
+    ((cfgC.services.flatMap Service.built).filter (fun rt => Spec.admitsRequest E1 .curly rt reqC)).map (·.id) = [1, 2] ∧
+    route E1 cfgC reqC = .selected 0 1
+      [("org".toList, "acme".toList), ("id".toList, "42".toList), ("file".toList, "report".toList)] ∧
+    route E1 cfgC (get "/orgs/acme/users/42/bob/") = .selected 0 2
+      [("org".toList, "acme".toList), ("id".toList, "42".toList), ("name".toList, "bob".toList)] ∧
+    route E1 cfgC (get "/orgs/acme/static/css/site.css") = .selected 0 3
+      [("org".toList, "acme".toList), ("rest".toList, "css/site.css".toList)] := by
+  decide
+example : Spec.c04Holds E1 cfgC reqC (route E1 cfgC reqC) = true := C04_curly E1 cfgC (by decide) (by decide) reqC
+
+/-- the hypotheses of `C04_jsr` hold; two routes admit the first URL and the literal one runs -/
+example :
+    cfgJ.router = .jsr ∧ cfgJ.wfTemplates = true ∧
+    ((cfgJ.services.flatMap Service.built).filter (fun rt => Spec.admitsRequest E1 .jsr rt reqJ)).map (·.id) = [1, 2] ∧
+    route E1 cfgJ reqJ = .selected 0 1 [("org".toList, "acme".toList), ("id".toList, "42".toList)] ∧
+    route E1 cfgJ (get "/orgs/acme/users/42/bob/") = .selected 0 2
+      [("org".toList, "acme".toList), ("id".toList, "42".toList), ("name".toList, "bob".toList)] ∧
+    route E1 cfgJ (get "/orgs/acme/static/css/site.css") = .selected 0 3
+      [("org".toList, "acme".toList), ("rest".toList, "css/site.css".toList)] := by
+  decide
+example : Spec.c04Holds E1 cfgJ reqJ (route E1 cfgJ reqJ) = true := C04_jsr E1 cfgJ (by decide) (by decide) reqJ
+
+/-- `Spec.c04Holds` is not trivially true: with the right route it is falsified by a wrong value,
+    a value that kept its suffix, a value that kept the verb, a missing name, an extra name, two
+    values swapped, a tail wildcard bound to its first segment only; the order of the bindings does
+    not matter (they come out of a map) -/
+example :
+    Spec.c04Holds E1 cfgC reqC (.selected 0 1
+      [("file".toList, "report".toList), ("org".toList, "acme".toList), ("id".toList, "42".toList)]) = true ∧
+    Spec.c04Holds E1 cfgC reqC (.selected 0 1
+      [("org".toList, "acme".toList), ("id".toList, "43".toList), ("file".toList, "report".toList)]) = false ∧
+    Spec.c04Holds E1 cfgC reqC (.selected 0 1
+      [("org".toList, "acme".toList), ("id".toList, "42".toList), ("file".toList, "report.json".toList)]) = false ∧
+    Spec.c04Holds E1 cfgC reqC (.selected 0 1
+      [("org".toList, "acme".toList), ("id".toList, "42".toList), ("file".toList, "report.json:export".toList)]) = false ∧
+    Spec.c04Holds E1 cfgC reqC (.selected 0 1 [("id".toList, "42".toList), ("file".toList, "report".toList)]) = false ∧
+    Spec.c04Holds E1 cfgC reqC (.selected 0 1
+      [("org".toList, "acme".toList), ("id".toList, "42".toList), ("file".toList, "report".toList), ("x".toList, [])]) = false ∧
+    Spec.c04Holds E1 cfgC reqC (.selected 0 1
+      [("org".toList, "42".toList), ("id".toList, "acme".toList), ("file".toList, "report".toList)]) = false ∧
+    Spec.c04Holds E1 cfgC (get "/orgs/acme/static/css/site.css") (.selected 0 3
+      [("org".toList, "acme".toList), ("rest".toList, "css".toList)]) = false ∧
+    Spec.c04Holds E1 cfgJ reqJ (.selected 0 1 [("org".toList, "acme".toList), ("id".toList, "4".toList)]) = false ∧
+    Spec.c04Holds E1 cfgJ reqJ (.selected 0 1 [("org".toList, "acme".toList)]) = false ∧
+    Spec.c04Holds E1 cfgJ (get "/orgs/acme/static/css/site.css") (.selected 0 3
+      [("org".toList, "acme".toList), ("rest".toList, "css".toList)]) = false := by
+  decide
+
+/-- the full template of route 1 of `cfgC` and the segments of `reqC` -/
+def ts1 : List TTok :=
+  [ ⟨.lit "orgs".toList, none⟩, ⟨.var "org".toList, none⟩, ⟨.lit "users".toList, none⟩,
+    ⟨.re "id".toList "[0-9]+".toList, none⟩, ⟨.suf "file".toList ".json".toList, some "export".toList⟩ ]
+
+example : readTemplate "/orgs/{org}/users/{id:[0-9]+}/{file}.json:export".toList = some ts1 := by decide
+
+/-- `c04_clauses` and `admittedSegments_facts` on that template and URL (every hypothesis by `decide`) -/
+example := c04_clauses E1 .curly ts1 (by decide) (by decide) (by decide) (tokenize reqC.path) (by decide) (by decide)
+example := admittedSegments_facts E1 .curly ts1 reqC.path (tokenize reqC.path) (by decide)
+/-- … and `admittedSegments_facts` on RouterJSR311's reading with a tolerated trailing slash -/
+example := admittedSegments_facts E1 .jsr
+  [⟨.lit "orgs".toList, none⟩, ⟨.var "org".toList, none⟩] "/orgs/acme/".toList ["orgs".toList, "acme".toList] (by decide)
+
+end C04Example
+
 /-! The frame condition (Lemmas/StateShape.lean): the code has exactly the state this property's model
     accounts for — no further package-level variable, struct type or field; constants as modelled. -/
 -- also: Restful.StateShape.globals_shape
